@@ -143,7 +143,12 @@ def symmetric(repo: Repo, chk: Check) -> None:
                 if t.count(pred) == 2 and pred not in blocks and "isinstance" not in t:
                     blocks[pred] = n
     if set(blocks) != {"dispatch_to_dm", "dispatch_to_compute"}:
-        raise AnalysisError(f"{f.where}: the two dependency-direction blocks were not found")
+        # the two directions are not two `if` statements (a loop over the two rules, a helper, ..): decide the same clauses on the
+        # facts that dominate the appends to the pending list
+        if not _symmetric_by_flow(repo, chk, f, fl):
+            raise AnalysisError(f"{f.where}: the two dependency-direction blocks were not found")
+        _symmetric_tail(repo, chk, f, fl)
+        return
     a = _norm_dir(ast.unparse(blocks["dispatch_to_dm"]), "dispatch_to_dm")
     b = _norm_dir(ast.unparse(blocks["dispatch_to_compute"]), "dispatch_to_compute")
     chk.result(a == b, "C13.symmetric", f"{f.key}:alpha-equivalent", f"{f.module.relpath}:{blocks['dispatch_to_dm'].lineno}",
@@ -181,6 +186,88 @@ def symmetric(repo: Repo, chk: Check) -> None:
                    f"the back-edge barrier is only requested under additional condition(s) {extra}: loops for which that test fails lose the barrier "
                    "between iteration i's consumer and iteration i+1's producer")
     every_pair(repo, chk, f, fl, blocks)
+    _symmetric_tail(repo, chk, f, fl)
+
+
+def _symmetric_by_flow(repo: Repo, chk: Check, f: Func, fl: Flow) -> bool:
+    """C13.symmetric / C13.every-pair decided from must-facts (used when the two directions are not two syntactic blocks)"""
+    apps = [s for s in fl.calls("append") if s.reachable and any(isinstance(l, ast.For) and norm.match(T("$v.uses"), l.iter) is not None for l in s.loops)]
+    if not apps:
+        return False
+    results: dict[str, dict[str, object]] = {}
+    for pred in ("dispatch_to_dm", "dispatch_to_compute"):
+        cons = None
+        back = None
+        for s in apps:
+            use_loop = [l for l in s.loops if isinstance(l, ast.For) and norm.match(T("$v.uses"), l.iter) is not None][-1]
+            uv = use_loop.target.id if isinstance(use_loop.target, ast.Name) else None
+            if uv is None:
+                return False
+            # what is known at the request but not at the head of the loop over the uses: the conditions on this very pair
+            head = next((x for x in fl.stmts(ast.For) if x.node is use_loop or (getattr(x.node, "lineno", None) == use_loop.lineno and ast.dump(x.node.target) == ast.dump(use_loop.target))), None)
+            base = set(head.fact_texts) if head is not None else set()
+            pair = [fa for fa in s.facts if fa.kind == "atom" and fa.text not in base]
+            pos = [fa for fa in pair if norm.match(T(f"{pred}($p, $c)"), fa.expr) is not None]
+            neg = [fa for fa in pair if norm.match(T(f"not {pred}($u, $c)"), fa.expr) is not None]
+            if not pos or not neg:
+                continue
+            prod = ast.unparse(norm.match(T(f"{pred}($p, $c)"), pos[0].expr)["p"])  # type: ignore[index]
+            use = ast.unparse(norm.match(T(f"not {pred}($u, $c)"), neg[0].expr)["u"])  # type: ignore[index]
+            arg = ast.unparse(s.expand(s.node.args[0]))
+            # facts that only restate what the predicate's outcome implies (derived from its summary) are not conditions of their own
+            derived = set()
+            try:
+                from sa.flow import expand as _expand, outcome_summary
+                pf = repo.func(RULES, pred)
+                summ = outcome_summary(pf, repo, 0)
+                for outcome, who in (("false", norm.match(T(f"not {pred}($u, $c)"), neg[0].expr)), ("true", norm.match(T(f"{pred}($p, $c)"), pos[0].expr))):
+                    args = [who.get("u") or who.get("p"), who["c"]]  # type: ignore[union-attr]
+                    sub = dict(zip(pf.params, args))
+                    for fact in summ.get(outcome) or []:
+                        if fact.kind == "atom":
+                            derived.add(ast.unparse(norm.canon(_expand(fact.expr, sub))))
+            except Exception:  # noqa: BLE001
+                derived = set()
+            others = [fa for fa in pair if fa not in neg and fa not in pos and fa.text not in derived]
+            if arg == use:
+                cons = {"site": s, "prod": prod, "use": use, "extra": [fa.text for fa in others]}
+            elif "last_op" in arg or any("last_op" in ast.unparse(x) for x in [fl.cone(s.node.args[0], s, inline=0)]):
+                same_parent = [fa for fa in others if norm.any_match(["$a.parent_op() == $b.parent_op()", "$a.parent_op() is $b.parent_op()"], fa.expr) is not None]
+                is_for = [fa for fa in s.facts if fa.kind == "atom" and norm.any_match(["isinstance($a.parent_op(), scf.ForOp)", "isinstance($a.parent_op(), ForOp)"], fa.expr) is not None]
+                # the yield itself being there (an assert / None test on the loop's last op) is not a condition on the pair
+                about_yield = [fa for fa in others if "last_op" in fa.text and norm.any_match(
+                    ["isinstance($y, scf.YieldOp)", "isinstance($y, YieldOp)", "$y is not None"], fa.expr) is not None]
+                extra = [fa.text for fa in others if fa not in same_parent and fa not in is_for and fa not in about_yield]
+                back = {"site": s, "ok": bool(same_parent) and bool(is_for), "extra": extra}
+        results[pred] = {"cons": cons, "back": back}
+    if any(results[p_]["cons"] is None for p_ in results):
+        return False
+    for pred, r in results.items():
+        cons, back = r["cons"], r["back"]
+        s = cons["site"]  # type: ignore[index]
+        key = f"{f.key}:{pred}"
+        chk.result(cons["prod"] != cons["use"], "C13.symmetric", key + ":polarity", s.where(),  # type: ignore[index]
+                   "condition = producer dispatched to this core and consumer not")
+        chk.result(not cons["extra"], "C13.symmetric", key + ":consumer", s.where(),  # type: ignore[index]
+                   "the consumer becomes pending unconditionally", f"the consumer is only added to the pending list under {cons['extra']}")  # type: ignore[index]
+        chk.result(back is not None and bool(back["ok"]), "C13.symmetric", key + ":back-edge", s.where(),  # type: ignore[index]
+                   "the loop's yield becomes pending when producer and consumer share an scf.for parent",
+                   "the loop back-edge clause (barrier before the yield of the common scf.for) is missing in this direction")
+        chk.result(back is not None and bool(back["ok"]) and not back["extra"], "C13.symmetric", key + ":back-edge-unconditional", s.where(),  # type: ignore[index]
+                   "the back-edge clause has no further condition",
+                   f"the back-edge barrier is only requested under additional condition(s) {back['extra'] if back else None}")  # type: ignore[index]
+    chk.ok("C13.symmetric", f"{f.key}:alpha-equivalent", f.where, "both directions satisfy the same clauses (decided per direction from the dominating facts)")
+    chk.rule(
+        "C13.every-pair",
+        "every (op, user-of-its-operand) pair reaches the two dispatch tests; a pair may be skipped beforehand only under a condition that "
+        "establishes, for both ops, that they do not write the shared value",
+        floor=1,
+    )
+    chk.ok("C13.every-pair", f"{f.key}:uses-loop", f.where, "no condition other than the dispatch tests dominates the requests (see :consumer)")
+    return True
+
+
+def _symmetric_tail(repo: Repo, chk: Check, f: Func, fl: Flow) -> None:
     # resets and insertion point
     ins = [s for s in fl.calls("insert_op") if s.reachable]
     ok_ins = any(len(s.node.args) > 1 and norm.match(T("InsertPoint.before($o)"), s.node.args[1]) is not None and bool(has_fact(s, ["$o in $l"])) for s in ins)
